@@ -180,6 +180,24 @@ func runC19(r *rt.Runner) {
 			default:
 				f.FontMatrix[1], f.FontMatrix[2] = 0, 0
 			}
+			// command records that carry more arguments than their operator uses
+			// (a caller that keeps six slots per command, or spare values behind
+			// the points): the documented arguments are the first two / six
+			if rng.IntN(6) == 0 {
+				for _, g := range f.Glyphs {
+					for i := range g.Cmds {
+						if rng.IntN(2) == 0 {
+							continue
+						}
+						pad := []float64{0, 0, 0, 0}[:1+rng.IntN(4)]
+						if rng.IntN(2) == 0 {
+							pad = []float64{float64(rng.IntN(4001) - 2000), float64(rng.IntN(4001) - 2000)}
+						}
+						g.Cmds[i].Args = append(append([]float64(nil), g.Cmds[i].Args...), pad...)
+					}
+				}
+				o.f("commands with spare arguments behind the used ones")
+			}
 			// some glyphs with only closepath commands, some empty
 			names := sortedGlyphNames(f)
 			if rng.IntN(3) == 0 {
